@@ -18,7 +18,7 @@ Definition c06_unguarded_dslash (spec got : text) : bool :=
 (* D5: a "/." is inserted although the result has an authority *)
 Definition c06_spurious_dot_with_host (spec got : text) : bool :=
   let s := five_of_text spec in let g := five_of_text got in
-  is_some_t (f_auth s) && starts_with [47; 47; 47] (f_path s)
+  is_some_t (f_auth s) && starts_with [47; 47] (f_path s)
   && text_eqb (f_path g) (47 :: 46 :: f_path s)
   && text_eqb (recompose (mkFive (f_scheme g) (f_auth g) (f_path s) (f_query g) (f_frag g))) spec.
 (* D12: the host-less result path "/" is written "/./" *)
